@@ -187,11 +187,14 @@ func main() {
 	bed.Init("OFF")
 
 	protoNames := []string{"raw", "json", "pb", "http"}
-	limits := []uint32{1 << 10, 64 << 10, 1 << 20, 0}
+	// the default limit (1 GiB) lets a 4-byte prefix make the receiver allocate and clear up to 1 GiB - legitimate,
+	// but slow; the quick tier uses 16 MiB as its largest limit, the thorough tier adds the default
+	limits := []uint32{1 << 10, 64 << 10, 1 << 20, 16 << 20}
 	perBatch := 200
 	if *tier == "thorough" {
 		protoNames = []string{"raw", "json", "pb", "http", "thrift-binary", "thrift-struct"}
 		perBatch = 1500
+		limits = []uint32{1 << 10, 64 << 10, 1 << 20, 16 << 20, 0}
 	}
 	p := protos.ByName(protoNames[*batch%len(protoNames)])
 	limit := limits[(*batch/len(protoNames))%len(limits)]
@@ -235,8 +238,34 @@ func main() {
 	}
 	probeSeq := int32(100000)
 
-	for k := 0; k < perBatch; k++ {
-		in := gen(p, effLimit, r, routes, valid)
+	// exhaustive part: every byte position of the first valid frame set to each of 5 boundary values,
+	// split over the batches that serve this protocol (one slice per read limit)
+	var exhaustive []input
+	for pos := range valid[0] {
+		for _, v := range []byte{0x00, 0x01, 0x7f, 0x80, 0xff} {
+			if valid[0][pos] == v {
+				continue
+			}
+			b := append([]byte(nil), valid[0]...)
+			b[pos] = v
+			exhaustive = append(exhaustive, input{Class: "byte-exhaustive", Bytes: b})
+		}
+	}
+	slices := *nbatch / len(protoNames)
+	if slices < 1 {
+		slices = 1
+	}
+	slice := (*batch / len(protoNames)) % slices
+	lo, hi := len(exhaustive)*slice/slices, len(exhaustive)*(slice+1)/slices
+	exhaustive = exhaustive[lo:hi]
+	core.Add("exhaustive_single_byte_inputs", int64(len(exhaustive)))
+	for k := 0; k < perBatch+len(exhaustive); k++ {
+		var in input
+		if k < len(exhaustive) {
+			in = exhaustive[k]
+		} else {
+			in = gen(p, effLimit, r, routes, valid)
+		}
 		id := fmt.Sprintf("b%d.%d", *batch, k)
 		hx := hex.EncodeToString(in.Bytes)
 		if len(hx) > 400 {
